@@ -3,6 +3,7 @@
 package script
 
 import (
+	"os/signal"
 	"slices"
 	"vt/internal/fx/delta"
 	lcodec "vt/internal/fx/left/codec"
@@ -327,6 +328,26 @@ func render(c gengo.Context, pieces []Piece, gen, typ string, st *state, into *s
 			sort.Strings(paths)
 			for _, ip := range paths {
 				ipkg := c.Package(ip)
+				if ipkg != nil && ipkg.Module() == nil {
+					// a package of the standard library: Context.Doc must report what the declaring package's own Doc reports
+					tn := ipkg.Types()
+					names := make([]string, 0, len(tn))
+					for n := range tn {
+						names = append(names, n)
+					}
+					sort.Strings(names)
+					for _, n := range names {
+						if !tn[n].Exported() {
+							continue
+						}
+						ctags, cdoc := c.Doc(tn[n])
+						ptags, pdoc := ipkg.Doc(tn[n].Pos())
+						if len(cdoc) != len(pdoc) || len(ctags) < len(ptags) {
+							panic(fmt.Sprintf("vt: Context.Doc(%s.%s) reports %d doc lines and %d tags, the declaring package's Doc reports %d lines and %d tags", ip, n, len(cdoc), len(ctags), len(pdoc), len(ptags)))
+						}
+					}
+					continue
+				}
 				if ipkg == nil || ipkg.Module() == nil || c.Package("").Module() == nil || ipkg.Module().Path != c.Package("").Module().Path {
 					continue
 				}
@@ -513,6 +534,9 @@ func generate(s *Script, st *state, c gengo.Context, obj *types.TypeName, alias 
 type RunSpec struct {
 	Dir string `json:"dir"`           // module root
 	Cwd string `json:"cwd,omitempty"` // working directory relative to Dir ("" = the module root itself); entrypoints must then be import paths
+	// FileSizeLimit (child runs only): RLIMIT_FSIZE in bytes while Execute runs (packages are loaded before it drops; SIGXFSZ
+	// is ignored, so a write beyond the limit fails with EFBIG); 0 = no limit
+	FileSizeLimit int `json:"filesizelimit,omitempty"`
 	// Retry: when the first Execute fails, Execute is called once more on the SAME context with these generators (what a
 	// caller does that repairs the cause and tries again)
 	Retry       []*Script           `json:"retry,omitempty"`
@@ -621,7 +645,21 @@ func Run(rs RunSpec) (res RunResult) {
 		res.LoadErr = err.Error()
 		return res
 	}
-	if err := c.Execute(context.Background(), gens...); err != nil {
+	restoreLimit := func() {}
+	if rs.FileSizeLimit > 0 {
+		var old syscall.Rlimit
+		if err := syscall.Getrlimit(syscall.RLIMIT_FSIZE, &old); err != nil {
+			panic("script: getrlimit: " + err.Error())
+		}
+		signal.Ignore(syscall.SIGXFSZ)
+		if err := syscall.Setrlimit(syscall.RLIMIT_FSIZE, &syscall.Rlimit{Cur: uint64(rs.FileSizeLimit), Max: old.Max}); err != nil {
+			panic("script: setrlimit: " + err.Error())
+		}
+		restoreLimit = func() { _ = syscall.Setrlimit(syscall.RLIMIT_FSIZE, &old) }
+	}
+	execErr := c.Execute(context.Background(), gens...)
+	restoreLimit()
+	if err := execErr; err != nil {
 		res.Failed = true
 		res.Err = err.Error()
 		res.ErrSyntax = isScannerList(err)
